@@ -254,6 +254,18 @@ def main():
     stamps = []
     error = None
     consume = case.get('consume', 'full')
+    companion, companion_got, companion_error, companion_expected = None, [], None, []
+    if case.get('companion'):
+        # a second comparison run of the same process (another category consumed in lock step): it is started first, its worker sits
+        # idle while the judged run goes through all its stages, and it is consumed to the end afterwards
+        healthy = [(i, b) for i, b in zip(ids, case['behaviours']) if b in ('equal', 'different')]
+        companion_expected = [{'equal': 'Equal', 'different': 'Different'}[b] for _, b in healthy]
+        eq2 = Equalizer(iter([i for i, _ in healthy]), player, result_extractor, comparator, compare_execution_config=cfg)
+        companion = eq2.run_comparison()
+        try:
+            companion_got.append(next(companion).comparator_status.equality_status.name)
+        except BaseException as ex:  # noqa
+            companion_error = 'first:' + repr(ex)
     gen = run_comparison()
     if case.get('consume_in_fork'):
         # the comparison is prepared in one process and consumed in a process forked from it (one forked consumer per category)
@@ -315,6 +327,13 @@ def main():
     except BaseException as ex:  # noqa
         error = 'run:' + repr(ex)
     t_end = time.monotonic() - t_start
+    if companion is not None and companion_error is None:
+        try:
+            for comp2 in companion:
+                companion_got.append(comp2.comparator_status.equality_status.name)
+        except BaseException as ex:  # noqa
+            companion_error = 'rest:' + repr(ex)
+        comp2 = None
     if hang_flag and os.path.exists(hang_flag):
         os.remove(hang_flag)
     if consume != 'full' and consume[0] in ('drop', 'raise', 'sigint'):
@@ -343,7 +362,7 @@ def main():
             pass
     print(json.dumps({'ids': ids, 'results': results, 'stamps': stamps, 'error': error, 'finished': finished, 'total_s': t_end,
                       'pids': pids, 'task_pid': task_pid, 'survivors': survivors, 'gone_after': gone_after, 'calib_s': calib,
-                      'late_waits': late_waits}))
+                      'late_waits': late_waits, 'companion': {'expected': companion_expected, 'got': companion_got, 'error': companion_error}}))
     sys.stdout.flush()
     os._exit(0)
 
